@@ -44,7 +44,7 @@ def one(mid):
             out = os.path.join(root, "w", mid + "-out")
             os.makedirs(out, exist_ok=True)
             shutil.copy("/verif/known_findings.txt", out)
-            r = subprocess.run(["/verif/bin/pvcheck", "-repo", w, "-out", out, "-property", "all", "-tier", "quick"], capture_output=True, text=True, timeout=1800)
+            r = subprocess.run([os.environ.get("PVCHECK", "/verif/bin/pvcheck"), "-repo", w, "-out", out, "-property", "all", "-tier", "quick"], capture_output=True, text=True, timeout=1800)
             caught = "CHECKER-ERROR"
             rules = []
             for ln in r.stdout.splitlines() + r.stderr.splitlines():
@@ -64,6 +64,13 @@ def one(mid):
             f.write(json.dumps(meta) + "\n")
 
 ids = sorted(os.listdir(os.path.join(root, "m")))
+# most property-relevant files first (the run can be stopped at any time; it resumes from results.jsonl)
+prio = ["segment.go", "recovery.go", "index.go", "datalog.go", "db.go", "file.go", "iterator.go", "compaction.go", "bucket.go",
+        "fs/os_unix.go", "fs/mem.go", "fs/os_mmap.go", "lock.go", "gobfile.go", "header.go", "options.go", "backup.go"]
+def rank(mid):
+    f = json.load(open(os.path.join(root, "m", mid, "meta.json")))["file"]
+    return (prio.index(f) if f in prio else len(prio), mid)
+ids.sort(key=rank)
 with ThreadPoolExecutor(max_workers=jobs) as ex:
     list(ex.map(one, ids))
 print("done")
